@@ -93,6 +93,20 @@ def scenario(sid, seed=0):
         )
         kinds = {"ts": "QNT", "fl": "QNT", "q": "QNT", "c": "CAT"}
         ranks = {}
+    elif sid == 9:
+        # 48 rows: a value carried by 7/48 = 14.6 % of the rows (between 1/7 and 0.15: whether it is "over-represented"
+        # depends on how the number of quantiles is derived from min_freq = 0.15) and a zero-inflated column
+        n = 48
+        X = pd.DataFrame(
+            {
+                "z": pd.Series([0.0] * 7 + [1.0 + 0.5 * i for i in range(n - 7)], dtype=float),
+                "w": pd.Series([0.0] * 20 + [float(1 + (i * 5) % 28) for i in range(n - 20)], dtype=float),
+                "q": pd.Series([float(i % 4) for i in range(n)], dtype=float),
+                "c": pd.Series([names[i % 3] for i in range(n)], dtype=object),
+            }
+        )
+        kinds = {"z": "QNT", "w": "QNT", "q": "QNT", "c": "CAT"}
+        ranks = {}
     elif sid == 8:
         # the object is built with the values_orders of an earlier fit on other data: stale cut points for two of the
         # quantitative features (a fit recomputes every quantitative feature's quantiles, whatever the code path)
@@ -172,7 +186,7 @@ def target(cls, n):
     return pd.Series(pat)
 
 
-def build(cls, feats, kinds, ranks, n_jobs):
+def build(cls, feats, kinds, ranks, n_jobs, mf=0.1):
     from AutoCarver import BinaryCarver, ContinuousCarver
     from AutoCarver.discretizers import Discretizer
 
@@ -182,8 +196,8 @@ def build(cls, feats, kinds, ranks, n_jobs):
     vo = {f: list(ranks[f]) for f in ordi}
     vo.update({f: list(ranks[f]) for f in quanti if f in ranks})  # scenario 8: orders of an earlier fit handed over
     if cls == "Discretizer":
-        return Discretizer(quanti, quali, 0.1, ordinal_features=ordi, values_orders=vo, copy=True, n_jobs=n_jobs)
-    kw = dict(min_freq=0.1, quantitative_features=quanti, qualitative_features=quali, ordinal_features=ordi, values_orders=vo, max_n_mod=3, copy=True, n_jobs=n_jobs)
+        return Discretizer(quanti, quali, mf, ordinal_features=ordi, values_orders=vo, copy=True, n_jobs=n_jobs)
+    kw = dict(min_freq=mf, quantitative_features=quanti, qualitative_features=quali, ordinal_features=ordi, values_orders=vo, max_n_mod=3, copy=True, n_jobs=n_jobs)
     if cls == "BinaryCarver":
         return BinaryCarver(sort_by="tschuprowt", **kw)
     if cls == "MulticlassCarver":
@@ -225,7 +239,7 @@ def outcome(obj, X, feats, Xnew=None):
     return json.loads(json.dumps(out))
 
 
-def fit_outcome(cls, sid, seed, feats, n_jobs, columns=None, index=None):
+def fit_outcome(cls, sid, seed, feats, n_jobs, columns=None, index=None, mf=0.1):
     X, kinds, ranks = scenario(sid, seed)
     if columns is not None:
         X = X[list(columns)]
@@ -234,7 +248,7 @@ def fit_outcome(cls, sid, seed, feats, n_jobs, columns=None, index=None):
         n = len(X)
         labels = [f"r{(7 * i) % n}" for i in range(n)] if index == "str" else [(7 * i + 3) % n for i in range(n)]
         X, y = X.set_axis(labels, axis=0), y.set_axis(labels, axis=0)
-    obj = build(cls, list(feats), kinds, ranks, n_jobs)
+    obj = build(cls, list(feats), kinds, ranks, n_jobs, mf)
     obj.fit(X, y)
     Xnew = new_frame(sid, X)
     if Xnew is not None and columns is not None:
@@ -247,15 +261,15 @@ def fit_outcome(cls, sid, seed, feats, n_jobs, columns=None, index=None):
 _REF = {}
 
 
-def reference(cls, sid, seed):
+def reference(cls, sid, seed, mf=0.1):
     """per feature: the single-feature sequential fit (no seams active)"""
-    key = (cls, sid, seed)
+    key = (cls, sid, seed, mf)
     if key not in _REF:
         sched.uninstall()
         _, kinds, _ = scenario(sid, seed)
         ref = {}
         for f in kinds:
-            ref.update(fit_outcome(cls, sid, seed, [f], 1))
+            ref.update(fit_outcome(cls, sid, seed, [f], 1, mf=mf))
         _REF[key] = ref
     return _REF[key]
 
@@ -272,7 +286,8 @@ def compare(got, ref, feats):
 
 def run_case(case):
     cls, sid, seed = case["cls"], case["sid"], case.get("seed", 0)
-    ref = reference(cls, sid, seed)
+    mf = case.get("min_freq", 0.1)
+    ref = reference(cls, sid, seed, mf)
     _, kinds, _ = scenario(sid, seed)
     feats = case.get("feats") or list(kinds)
     res = {"violations": [], "sample": dict(case)}
@@ -282,7 +297,7 @@ def run_case(case):
         rank = {f: r for f, r in zip(sorted(kinds), case.get("rank") or range(len(kinds)))}
         sched.reset(case["plan"], names=list(kinds), rank=rank)
         try:
-            got = fit_outcome(cls, sid, seed, feats, case.get("n_jobs", 2), case.get("columns"), case.get("index"))
+            got = fit_outcome(cls, sid, seed, feats, case.get("n_jobs", 2), case.get("columns"), case.get("index"), mf)
         finally:
             trace = list(sched.TRACE)
             sched.reset()
@@ -291,7 +306,7 @@ def run_case(case):
         res["outcome"] = f"{cls}:sched"
     else:  # plain: subsets / orderings / column orders, n_jobs=1, no seams
         sched.uninstall()
-        got = fit_outcome(cls, sid, seed, feats, 1, case.get("columns"), case.get("index"))
+        got = fit_outcome(cls, sid, seed, feats, 1, case.get("columns"), case.get("index"), mf)
         res["outcome"] = f"{cls}:{mode}"
     diffs = compare(got, ref, feats)
     for d in diffs[:2]:
@@ -328,7 +343,7 @@ def real_run(args):
 
 
 def run(tier, seed, rep):
-    sids = [0, 1, 3, 4, 5, 7, 8] if tier == "quick" else [0, 1, 2, 3, 4, 5, 7, 8]
+    sids = [0, 1, 3, 4, 5, 7, 8, 9] if tier == "quick" else [0, 1, 2, 3, 4, 5, 7, 8, 9]
     cases = []
     # (a) subsets, orderings of the feature list, column orders -- sequential, no seams
     pairs = [(cls, sid) for cls in CLASSES for sid in sids] + [("MulticlassCarver", sid) for sid in MULTI_SIDS]
@@ -344,6 +359,10 @@ def run(tier, seed, rep):
             for index in ("str", "shuffled"):  # row labels other than 0..n-1, sequential and through the pools
                 cases.append({"cls": cls, "sid": sid, "seed": seed, "mode": "subset", "feats": names, "index": index})
                 cases.append({"cls": cls, "sid": sid, "seed": seed, "mode": "plan", "plan": [], "n_jobs": 2, "feats": names, "index": index})
+            for mf in (0.15, 0.06):  # thresholds whose inverse is not an integer (the number of quantiles is a rounding)
+                for sub in [names] + [list(c) for c in itertools.combinations(names, 2)]:
+                    cases.append({"cls": cls, "sid": sid, "seed": seed, "mode": "subset", "feats": list(sub), "min_freq": mf})
+                    cases.append({"cls": cls, "sid": sid, "seed": seed, "mode": "plan", "plan": [], "n_jobs": 2, "feats": list(sub), "min_freq": mf})
             for perm in itertools.permutations(names):
                 cases.append({"cls": cls, "sid": sid, "seed": seed, "mode": "list-order", "feats": list(perm)})
                 cases.append({"cls": cls, "sid": sid, "seed": seed, "mode": "column-order", "feats": names, "columns": list(perm)})
